@@ -56,11 +56,12 @@ pub trait Scenario: Sync {
 
 pub mod block_lockstep;
 pub mod bus_crash;
+pub mod cache_bank_history;
 pub mod mbc_history;
 pub mod timer_batches;
 
 pub fn all() -> Vec<&'static dyn Scenario> {
-    vec![&timer_batches::TimerBatches, &block_lockstep::BlockLockstep, &bus_crash::BusCrash, &mbc_history::MbcHistory]
+    vec![&timer_batches::TimerBatches, &block_lockstep::BlockLockstep, &bus_crash::BusCrash, &mbc_history::MbcHistory, &cache_bank_history::CacheBankHistory]
 }
 
 pub fn by_name(name: &str) -> Option<&'static dyn Scenario> {
@@ -71,6 +72,7 @@ pub fn by_name(name: &str) -> Option<&'static dyn Scenario> {
 pub fn plan(property: &str) -> Vec<&'static str> {
     match property {
         "C01" | "C02" => vec!["block_lockstep"],
+        "C03" => vec!["cache_bank_history"],
         "C11" => vec!["bus_crash"],
         "C12" => vec!["mbc_history"],
         "C13" => vec!["timer_batches"],
